@@ -311,8 +311,6 @@ def _exhaustive(L, A, costs_list, size, loss=False, r0=True):
         for H in range(0, L + 1):
             for refs, hyps in _batches(R, H, A, size):
                 for eos, inc in EOS_MODES:
-                    if eos is not None and (R == 0 or H == 0):
-                        continue  # _lens_from_eos on a zero-size dimension is C01's obligation (C01.lens.empty_dim)
                     for costs in costs_list:
                         for bf in (False, True):
                             base = {"ref": refs, "hyp": hyps, "eos": eos, "include_eos": inc, "batch_first": bf, "costs": list(costs)}
@@ -448,7 +446,7 @@ def run_bounded(ctx):
     ctx.known_match.update(KNOWN_MATCH)
     q = ctx.quick
     ex = ("EXHAUSTIVE: every (ref, hyp) in {0,1,2}^R x {0,1,2}^H, R,H<=4 (R=4 forces a repeated reference token), in batches of <=81 pairs; "
-          "eos in {none, 0 not counted, 0 counted} (0 is in the alphabet: ragged lengths, garbage after eos; eos only with R,H>=1); "
+          "eos in {none, 0 not counted, 0 counted} (0 is in the alphabet: ragged lengths, garbage after eos); "
           "batch_first x exclude_last (not with H=0); costs (ins,del,sub) in %s" % (COSTS_QUICK if q else COSTS_QUICK + COSTS_MORE))
     more = "" if q else ("; + exhaustive R,H<=5 alphabet 3 (2 cost triples) %s+ " + "%d seeded random batches " % NRAND +
                          "(alphabet<=5, R,H,N<=6, eos inside/outside the alphabet, costs from {.25,.5,1,1.5,2,3,4}^3, functional or module entry point)")
@@ -481,7 +479,7 @@ def run_bounded(ctx):
         "(except in C03.oc.inexact_costs, which uses four non-representable triples whose ties are reading-independent within its bound)",
         "edit distance is the weighted Levenshtein recurrence (C01); the oracle's completions are bounded by |s| <= R+1 over ref's tokens plus one foreign token "
         "(tokens outside the reference are interchangeable)",
-        "counted tokens of a sequence: up to the first eos, eos itself counted iff include_eos and present (C01's convention); eos set with a zero-size R or H dimension is left to C01.lens.empty_dim",
+        "counted tokens of a sequence: up to the first eos, eos itself counted iff include_eos and present (C01's convention)",
         "loss compared in float64 with tolerance 1e-9*(1+|x|) (float32 logits: 2e-5*(1+|x|)); weight=None (class weights and gradients are not in the property's wording); 'mean' read as documented in DESIGN.md (per-sequence mean over prefixes with targets, then batch mean)",
         "the order of the listed tokens is not constrained by the property and is not checked",
     )
